@@ -20,7 +20,7 @@ _EP_ASSUME = [
 PROPS = {
     "C12": dict(
         suite="epochs",
-        modules=["CantoVerif.Props.C12", "CantoVerif.Bridge.EpochsConds"],
+        modules=["CantoVerif.Props.C12", "CantoVerif.Bridge.EpochsConds", "CantoVerif.Bridge.Counters", "CantoVerif.Props.C13NoWrap"],
         theorems=[
             "CV.Epochs.hook_order", "CV.Epochs.calls_cases", "CV.Epochs.start_at_first_block_not_before", "CV.Epochs.start_history",
             "CV.Epochs.tick_iff", "CV.Epochs.no_tick_unchanged", "CV.Epochs.at_most_one_per_block", "CV.Epochs.wf_advance",
@@ -31,6 +31,9 @@ PROPS = {
             # regenerated from the source by factx (conds.go), are the model's by rfl
             "CV.Bridge.Epochs.shouldStart_bridge", "CV.Bridge.Epochs.shouldEnd_bridge", "CV.Bridge.Epochs.startInitial_bridge",
             "CV.Bridge.Epochs.endEpoch_bridge",
+            # `CurrentEpoch++` over int64 = the model's `cur + 1` below 2^62 (Bridge/Counters.lean); one BeginBlocker raises an epoch
+            # number by at most one (Props/C13NoWrap.lean), so the range is never left in fewer than 2^62 blocks
+            "CV.Bridge.Counters.endCur_nowrap", "CV.Bridge.Counters.counters_wrap_at_top", "CV.Epochs.runInfo_cur_le", "CV.Epochs.beginBlock_cur_le",
         ],
         comps={"outcome", "resp", "infos"},
         assumptions=_EP_ASSUME,
